@@ -4,6 +4,21 @@ package multidb
 
 // Machine-checked contracts for /verif (read as text by the VC generator; no code).
 //
+// gRecN / gRecs model the table records stored (RLP) under the records key of a database.
+//@ ghost gRecN[kvdb.Store] int
+//@ ghost gRecs[kvdb.Store] [1]TableRecord
+//@ // gNamesOf[t]: Names() has been asked of the producer of type t by the running getRecords
+//@ ghost gAsked[TypeName] bool
+//@ // assumed: the records list is read back as written (RLP round trip through the store)
+//@ trusted func ReadTablesList
+//@   requires store != nil
+//@   ensures  err == nil ==> len(res) == gRecN[store] && gRecN[store] >= 0 && forall(j, 0, len(res), res[j] == gRecs[store][j]) && (res != nil ==> arrfresh(res, old(_alloc)))
+//@ trusted func WriteTablesList
+//@   requires store != nil
+//@   modifies gRecN[store], gRecs[store]
+//@   ensures  result == nil ==> gRecN[store] == len(records) && forall(j, 0, len(records), gRecs[store][j] == records[j])
+//@   ensures  result != nil ==> gRecN[store] == old(gRecN[store]) && gRecs[store] == old(gRecs[store])
+//@
 //@ // two tables overlap exactly when one name is a prefix of the other (symmetric by construction)
 //@ func tablesConflicting
 //@   ensures result == (strings.HasPrefix(a, b) || strings.HasPrefix(b, a))
@@ -36,3 +51,29 @@ package multidb
 //@   loop 2 invariant 0 <= i && i <= len(p.routingFmt) && (ok == has(p.routingTable, cur(req)) || (ok && !has(p.routingTable, cur(req)) && i >= 1 && fmtFirst(p, cur(req), 0) == i - 1)) && (!ok ==> fmtFirst(p, cur(req), 0) == fmtFirst(p, cur(req), i))
 //@   loop 2 invariant ok && has(p.routingTable, cur(req)) ==> dest.Type == p.routingTable[cur(req)].Type && dest.Name == p.routingTable[cur(req)].Name && dest.Table == p.routingTable[cur(req)].Table && dest.NoDrop == p.routingTable[cur(req)].NoDrop
 //@   loop 2 invariant ok && !has(p.routingTable, cur(req)) ==> dest.Type == p.routingFmt[i-1].Type && dest.Name == p.routingFmt[i-1].Name(cur(req)) && dest.Table == p.routingFmt[i-1].Table && dest.NoDrop == p.routingFmt[i-1].NoDrop
+//@
+//@ // ---- isolation: the records of a database never hold two requests with overlapping tables ----
+//@ spec cf(a string, b string) bool = strings.HasPrefix(a, b) || strings.HasPrefix(b, a)
+//@ spec recsOK(db kvdb.Store) bool = forall(i, 0, gRecN[db], forall(j, 0, gRecN[db], i != j ==> gRecs[db][i].Req != gRecs[db][j].Req && !cf(gRecs[db][i].Table, gRecs[db][j].Table)))
+//@ // handleRoute(db, req, route): succeeds only if afterwards (req, route.Table) is recorded and the records are still
+//@ // pairwise non-overlapping: a request recorded with another table, or a table overlapping the table of another
+//@ // request, is refused and the records stay as they were; existing records are never changed
+//@ func (*Producer).handleRoute
+//@   requires p != nil && db != nil && recsOK(db) && gRecN[db] < 4611686018427387904
+//@   modifies gRecN[db], gRecs[db]
+//@   ensures  [ok] result == nil ==> recsOK(db) && exists(j, 0, gRecN[db], gRecs[db][j].Req == req && gRecs[db][j].Table == route.Table)
+//@   ensures  [isolated] result == nil ==> forall(j, 0, gRecN[db], gRecs[db][j].Req != req ==> !cf(gRecs[db][j].Table, route.Table))
+//@   ensures  [kept] gRecN[db] >= old(gRecN[db]) && gRecN[db] <= old(gRecN[db]) + 1 && forall(j, 0, old(gRecN[db]), gRecs[db][j] == old(gRecs[db][j]))
+//@   ensures  [refused] result != nil ==> gRecN[db] == old(gRecN[db])
+//@   ensures  [conflict] exists(j, 0, old(gRecN[db]), old(gRecs[db][j]).Req != req && cf(old(gRecs[db][j]).Table, route.Table)) ==> result != nil
+//@   ensures  [reassign] exists(j, 0, old(gRecN[db]), old(gRecs[db][j]).Req == req && old(gRecs[db][j]).Table != route.Table) ==> result != nil
+//@   loop 1 invariant 0 <= _k && _k <= len(records) && forall(j, 0, _k, records[j].Req != req && !cf(records[j].Table, route.Table))
+//@
+//@ // ---- verification: no error exactly when every recorded request is still routed to its database type, name and table ----
+//@ spec sameRoute(p *Producer, loc DBLocator, r TableRecord) bool = rtType(p, r.Req, "", "") == loc.Type && rtName(p, r.Req, "", "") == loc.Name && rtTable(p, r.Req, "", "") == r.Table
+//@ func (*Producer).verifyRecords
+//@   requires p != nil && forall(i, 0, len(p.routingFmt), p.routingFmt[i].Name != nil)
+//@   ensures  [ok] result == nil ==> forall(loc DBLocator, has(oldDBRecords, loc) ==> forall(j, 0, len(oldDBRecords[loc]), sameRoute(p, loc, oldDBRecords[loc][j])))
+//@   ensures  [fail] result != nil ==> exists(loc DBLocator, has(oldDBRecords, loc) && exists(j, 0, len(oldDBRecords[loc]), !sameRoute(p, loc, oldDBRecords[loc][j])))
+//@   loop 1 invariant forall(loc DBLocator, _visited[loc] ==> forall(j, 0, len(oldDBRecords[loc]), sameRoute(p, loc, oldDBRecords[loc][j])))
+//@   loop 2 invariant 0 <= _k && _k <= len(records) && forall(j, 0, _k, sameRoute(p, oldLoc, records[j]))
